@@ -65,6 +65,13 @@ def generate(seed, tier):
                 table[index] = [rng.choice(["?", "#!", "Hd"])[:width] for width in widths]
             else:
                 table[index] = [rng.choice(["?", "Header", "", "99999"]) for _ in range(rng.randint(1, len(fields) + 2))]
+    if table and swarm.random() < 0.25:
+        # the last rows are equal (a spreadsheet program stores them as one repeated row)
+        table.append(list(table[-1]))
+    if fmt == "delimited" and table and swarm.random() < 0.1:
+        # what Excel puts in front of a CSV file to name the separator is a row like any other: skipped as header
+        # row or rejected as data row, and counted either way
+        table[0] = ["sep=", ""]
     limit = swarm.choice([None, None] + list(range(0, len(table) + 2)))
     api = swarm.choice(APIS)
     fault = None
@@ -79,6 +86,7 @@ def generate(seed, tier):
     rows_api = swarm.choice(["Reader", "rows"])
     return {"io": simfs.IoConfig.draw(swarm), "cid": spec, "table": table, "limit": limit, "api": api, "fault": fault,
             "rows_api": rows_api, "source": "path",
+            "ods_features": sorted(swarm.sample(["colruns", "rowruns", "colstyle", "stored", "spans", "links"], swarm.randint(0, 3))),
             # the same Reader object has been iterated before (k rows, or completely): header and limit count from the
             # start of *this* pass
             "prepass": swarm.choice([None, None, 0, 1, 2, -1]) if api.startswith("rows-") and rows_api == "Reader" and not fault else None,
@@ -148,7 +156,7 @@ def execute(scenario):
         fs.store(path, data)
         table = table[:intact]
     else:
-        tabular.store(fs, path, spec, table)
+        tabular.store(fs, path, spec, table, features=scenario.get("ods_features"))
     raw_rows = tabular.as_read(spec, table)
     model = tabular.RefReader(spec, raw_rows, until=limit)
     expected = model.items()
